@@ -685,7 +685,7 @@ func c08TwoWriters(a vh.Args, o *vh.Oracle, r *vh.Result, unc bool, data []byte,
 }
 
 func runC08(a vh.Args, o *vh.Oracle, r *vh.Result) error {
-	r.Rule = "store cases = (format; chunk data; prior store content) x (death on entering every store-related system call of the uninjected trace, and at exit) + (RLIMIT_FSIZE 0, 1, half, size-1; SIGXFSZ fatal or ignored) + two concurrent writers of the same chunk killed at the k-th openat/write/close/renameat/mkdirat of any thread + 6 concurrent writers of one 4 MiB chunk for 25 (150) rounds with an observer polling only the final name + a child running rounds of 4 concurrent writers of one 2 MiB chunk killed with SIGKILL after a random delay; extract cases = (blob, n workers, k) with the process killed at the k-th chunk request, with and without --in-place, incl. indexes with repeated chunks; SIGTERM/SIGINT at EVERY k of a small index (n=1,2; destination existing/absent); non-trivial = the child was actually killed (store) / the kill happened before the last chunk (extract)"
+	r.Rule = "store cases = (format; chunk data; prior store content) x (death on entering every store-related system call of the uninjected trace, and at exit) + (RLIMIT_FSIZE 0, 1, half, size-1; SIGXFSZ fatal or ignored) + two concurrent writers of the same chunk killed at the k-th openat/write/close/renameat/mkdirat of any thread + 6 concurrent writers of one 4 MiB chunk for 25 (150) rounds with an observer polling only the final name + a child running rounds of 4 concurrent writers of one 2 MiB chunk killed with SIGKILL after a random delay; extract cases = (blob, n workers, k) with the process killed at the k-th chunk request, with and without --in-place, incl. indexes with repeated chunks; extract over an existing destination killed on entering every directory-changing or data-writing system call of its own trace; SIGTERM/SIGINT at EVERY k of a small index (n=1,2; destination existing/absent); non-trivial = the child was actually killed (store) / the kill happened before the last chunk (extract)"
 	desync.Digest = desync.SHA256{}
 	if _, err := exec.LookPath("strace"); err != nil {
 		r.Note("strace not found: process-death cases cannot run")
@@ -749,6 +749,9 @@ func runC08(a vh.Args, o *vh.Oracle, r *vh.Result) error {
 		return err
 	}
 	r.Sample(map[string]interface{}{"kind": "store-kill", "note": "one case = one child process killed at one system call"})
+	if err := c08ExtractSysAll(a, r, rng); err != nil {
+		return err
+	}
 	return c08Extract(a, o, r, rng)
 }
 
@@ -785,6 +788,8 @@ func c08Replay(a vh.Args, o *vh.Oracle, r *vh.Result, c *c08Case) error {
 		return c08Concurrent(a, r, c)
 	case "store-concurrent-kill":
 		return c08ConcurrentKill(a, r, c)
+	case "extract-syscall-kill":
+		return c08ExtractSys(a, r, c)
 	case "extract-kill", "extract-inplace", "extract-signal":
 		return c08ExtractCase(a, r, c)
 	}
